@@ -50,6 +50,7 @@ lyd_json_ctx_free(struct lyd_ctx *lydctx)
 
     if (lydctx) {
         lyd_ctx_free(lydctx);
+        ly_set_erase(&ctx->ll_inst, NULL);
         lyjson_ctx_free(ctx->jsonctx);
         free(ctx);
     }
@@ -553,6 +554,32 @@ lydjson_data_check_opaq(struct lyd_json_ctx *lydctx, const struct lysc_node *sno
 }
 
 /**
+ * @brief Get a leaf-list instance parsed in the object being processed by its position in the JSON array.
+ *
+ * The siblings cannot be used, system-ordered instances are sorted when inserted.
+ *
+ * @param[in] lydctx JSON data parser context.
+ * @param[in] inst Any instance of the leaf-list in the object.
+ * @param[in] pos Position of the instance in the array, starting with 1.
+ * @return Leaf-list instance, NULL if there are fewer parsed instances.
+ */
+static struct lyd_node *
+lydjson_ll_instance(struct lyd_json_ctx *lydctx, const struct lyd_node *inst, uint64_t pos)
+{
+    struct lyd_node *iter;
+    uint32_t i;
+
+    for (i = lydctx->ll_scope; i < lydctx->ll_inst.count; ++i) {
+        iter = lydctx->ll_inst.objs[i];
+        if ((iter->schema == inst->schema) && (lyd_parent(iter) == lyd_parent(inst)) && !--pos) {
+            return iter;
+        }
+    }
+
+    return NULL;
+}
+
+/**
  * @brief Join the forward-referencing metadata with their target data nodes.
  *
  * Note that JSON encoding for YANG data allows forward-referencing metadata only for leafs/leaf-lists.
@@ -646,9 +673,18 @@ lydjson_metadata_finish(struct lyd_json_ctx *lydctx, struct lyd_node **first_p)
                 }
 
                 /* match */
-                match++;
-                if (match != instance) {
-                    continue;
+                if ((snode->nodetype == LYS_LEAFLIST) && lydjson_ll_instance(lydctx, node, 1)) {
+                    /* the instance on the same position in its array */
+                    node = lydjson_ll_instance(lydctx, node, instance);
+                    if (!node) {
+                        break;
+                    }
+                    match = instance;
+                } else {
+                    match++;
+                    if (match != instance) {
+                        continue;
+                    }
                 }
 
                 LY_LIST_FOR(meta_container->child, meta_iter) {
@@ -738,8 +774,9 @@ lydjson_metadata(struct lyd_json_ctx *lydctx, const struct lysc_node *snode, str
     struct lys_module *mod;
     const struct ly_ctx *ctx = lydctx->jsonctx->ctx;
     ly_bool is_attr = 0;
-    struct lyd_node *prev = node;
+    struct lyd_node *prev = node, *first = node;
     uint32_t instance = 0, val_hints;
+    ly_bool ll_order = 0;
     uint16_t nodetype;
 
     assert(snode || node);
@@ -758,6 +795,9 @@ lydjson_metadata(struct lyd_json_ctx *lydctx, const struct lysc_node *snode, str
         expected = "@name/array of objects/nulls";
         LY_CHECK_GOTO(status != LYJSON_ARRAY, representation_error);
 
+        /* the instances are coupled with the metadata by the positions in their arrays, not as siblings */
+        ll_order = node->schema && lydjson_ll_instance(lydctx, first, 1);
+
 next_entry:
         if (status == LYJSON_ARRAY_CLOSED) {
             /* no more metadata */
@@ -768,6 +808,10 @@ next_entry:
         LY_CHECK_GOTO(rc = lyjson_ctx_next(lydctx->jsonctx, &status), cleanup);
         instance++;
         LY_CHECK_GOTO((status != LYJSON_OBJECT) && (status != LYJSON_NULL), representation_error);
+
+        if (ll_order) {
+            node = lydjson_ll_instance(lydctx, first, instance);
+        }
 
         if (!node || (node->schema != prev->schema)) {
             LOGVAL(lydctx->jsonctx->ctx, LYVE_REFERENCE, "Missing JSON data instance #%" PRIu32
@@ -1272,6 +1316,7 @@ lydjson_parse_any(struct lyd_json_ctx *lydctx, const struct lysc_node *snode, st
 {
     LY_ERR r, rc = LY_SUCCESS;
     uint32_t prev_parse_opts = lydctx->parse_opts, prev_int_opts = lydctx->int_opts;
+    uint32_t prev_ll_scope = lydctx->ll_scope, prev_ll_count = lydctx->ll_inst.count;
     struct ly_in in_start;
     char *val = NULL;
     const char *end;
@@ -1308,6 +1353,9 @@ lydjson_parse_any(struct lyd_json_ctx *lydctx, const struct lysc_node *snode, st
         lydctx->parse_opts |= LYD_PARSE_OPAQ | (ext ? LYD_PARSE_ONLY : 0);
         lydctx->int_opts |= LYD_INTOPT_ANY | LYD_INTOPT_WITH_SIBLINGS;
         lydctx->any_schema = snode;
+
+        /* leaf-list instances of a new object */
+        lydctx->ll_scope = lydctx->ll_inst.count;
 
         /* process the anydata content */
         do {
@@ -1390,6 +1438,10 @@ cleanup:
     lydctx->parse_opts = prev_parse_opts;
     lydctx->int_opts = prev_int_opts;
     lydctx->any_schema = NULL;
+    while (lydctx->ll_inst.count > prev_ll_count) {
+        ly_set_rm_index(&lydctx->ll_inst, lydctx->ll_inst.count - 1, NULL);
+    }
+    lydctx->ll_scope = prev_ll_scope;
     free(val);
     lyd_free_siblings(child);
     return rc;
@@ -1412,12 +1464,15 @@ lydjson_parse_instance_inner(struct lyd_json_ctx *lydctx, const struct lysc_node
         enum LYJSON_PARSER_STATUS *status, struct lyd_node **node)
 {
     LY_ERR r, rc = LY_SUCCESS;
-    uint32_t prev_parse_opts = lydctx->parse_opts;
+    uint32_t prev_parse_opts = lydctx->parse_opts, prev_ll_scope = lydctx->ll_scope;
 
     LY_CHECK_RET(*status != LYJSON_OBJECT, LY_ENOT);
 
     /* create inner node */
     LY_CHECK_RET(lyd_create_inner(snode, node));
+
+    /* leaf-list instances of a new object */
+    lydctx->ll_scope = lydctx->ll_inst.count;
 
     /* use it for logging */
     LOG_LOCSET(NULL, *node);
@@ -1453,6 +1508,10 @@ lydjson_parse_instance_inner(struct lyd_json_ctx *lydctx, const struct lysc_node
 
 cleanup:
     lydctx->parse_opts = prev_parse_opts;
+    while (lydctx->ll_inst.count > lydctx->ll_scope) {
+        ly_set_rm_index(&lydctx->ll_inst, lydctx->ll_inst.count - 1, NULL);
+    }
+    lydctx->ll_scope = prev_ll_scope;
     LOG_LOCBACK(0, 1);
     if (!(*node)->hash) {
         /* list without keys is unusable, nodes of the subtree must not be validated later */
@@ -1755,6 +1814,10 @@ lydjson_subtree_r(struct lyd_json_ctx *lydctx, struct lyd_node *parent, struct l
                 /* remember a successfully parsed instance */
                 if (parsed && node) {
                     ly_set_add(parsed, node, 1, NULL);
+                }
+                if (node && node->schema && (snode->nodetype == LYS_LEAFLIST)) {
+                    r = ly_set_add(&lydctx->ll_inst, node, 1, NULL);
+                    LY_CHECK_ERR_GOTO(r, rc = r, cleanup);
                 }
                 lydjson_maintain_children(parent, first_p, &node,
                         lydctx->parse_opts & LYD_PARSE_ORDERED ? LYD_INSERT_NODE_LAST : LYD_INSERT_NODE_DEFAULT, ext);
